@@ -29,6 +29,11 @@ def rich_source(rng):
                 parts.append(f % a if "%d" in f else f)
             else:
                 parts.append(f % (a % 128, b))
+    if rng.random() < 0.15:
+        n = rng.choice([100, 126, 127, 128, 129, 200, 300]); ch = rng.choice(["a", "é", "♪", "😀"])
+        parts.insert(rng.randrange(0, len(parts) + 1), rng.choice(["TrackName", "Lyric", "Text", "Copyright"]) + "={" + ch * (n // len(ch.encode("utf-8")) + 1) + "}")
+    if rng.random() < 0.1:
+        parts.insert(rng.randrange(0, len(parts) + 1), "SysEx$=f0," + ",".join("%02x" % rng.randint(0, 127) for _ in range(rng.choice([5, 126, 127, 128, 200]))) + ",f7;")
     return " ".join(parts)
 
 def streams(tier, rng, P, only=None, cases=None):
